@@ -161,6 +161,16 @@ def run(prog, ctx):
                 ctx.fail("V2", "%s: round-trip precision" % sname, call.where,
                          "%d significant digits < %d needed to round-trip every %s" % (pv, need, tname), key="prec:%s" % sname)
         # V3 getter routine
+        dele = conv.delegate_getter(g)
+        if dele is not None:
+            dw, dsg, dk = conv.GETTERS[dele]
+            if (dw, dsg, dk) != (width, signed, kind):
+                ctx.fail("V3", "%s parses with a routine of its own type" % gname, g.where,
+                         "%s converts through %s (%d-bit %s) and narrows the result: values of the type do not come back exactly (double rounding / "
+                         "lost range)" % (gname, dele, dw, dk), key="routine:%s" % gname)
+            else:
+                ctx.ok("V3", "%s delegates to %s" % (gname, dele), g.where, "same type")
+            continue
         gc = conv.strto_call(g)
         if conv.uses_errno(g):
             ok_e, why_e = conv.errno_reset_before(g, gc)
